@@ -166,14 +166,20 @@ E2ECase(tree, inp, tp, off) ==
       st |-> fin.st, out |-> fin.out, rd |-> fin.rd, evs |-> MapLines(fin.evs, r.lines),
       report |-> [n \in 1..Len(rep) |-> [rep[n] EXCEPT !.line = r.lines[rep[n].line]]]]
 E2ETapes == {<<>>} \cup { Mixed(64, ab[1], ab[2]) : ab \in {<<3, 7>>, <<5, 11>>, <<17, 2>>, <<29, 4>>, <<31, 8>>, <<37, 16>>, <<41, 1>>, <<43, 6>>} }
+Noisy == [i \in 1..64 |-> 17]          \* every statement closed by a comment that spans three line breaks (17 % 9 = 8)
 E2ETapesFew == {<<>>, Mixed(64, 5, 11)}
 (* picking a case is cheap and sequential; expanding it (render, run, lint) is a separate step so that all workers share it *)
+LoadLint == /\ c.k = "init" /\ Family = "lint"
+            /\ \E t \in { p \in LTPrograms(0) \cup PRPrograms(0) : ProgramOK(p) }, tp \in E2ETapes \cup {Noisy}, off \in {0, 12, 24} :
+                  c' = [k |-> "e2epick", tree |-> t, inp |-> <<>>, tape |-> tp, off |-> off]
 LoadE2E == /\ c.k = "init" /\ Family = "e2e"
-           /\ \/ \E t \in { p \in FNPrograms(0) \cup MUPrograms(0) \cup PRPrograms(0) : ProgramOK(p) }, tp \in E2ETapes, off \in {0, 12, 24} :
+           /\ \/ \E t \in { p \in LTPrograms(0) : ProgramOK(p) }, tp \in {Noisy}, off \in {0} :
+                    c' = [k |-> "e2epick", tree |-> t, inp |-> <<>>, tape |-> tp, off |-> off]
+              \/ \E t \in { p \in FNPrograms(0) \cup MUPrograms(0) \cup PRPrograms(0) : ProgramOK(p) }, tp \in E2ETapes, off \in {0, 12, 24} :
                     c' = [k |-> "e2epick", tree |-> t, inp |-> <<>>, tape |-> tp, off |-> off]
               \/ \E t \in { p \in CFPrograms(0) : ProgramOK(p) }, tp \in E2ETapesFew, off \in {0} :
                     c' = [k |-> "e2epick", tree |-> t, inp |-> <<>>, tape |-> tp, off |-> off]
-              \/ \E t \in { p \in (IF Tier = "quick" THEN {} ELSE ARPrograms3(0)) : ProgramOK(p) }, tp \in E2ETapes, off \in {0, 12} :
+              \/ \E t \in { p \in (IF Tier = "quick" THEN {} ELSE ARPrograms3(0)) : ProgramOK(p) }, tp \in E2ETapesFew, off \in {12} :
                     c' = [k |-> "e2epick", tree |-> t, inp |-> <<>>, tape |-> tp, off |-> off]
               \/ \E cc \in E2EIO(0), tp \in E2ETapesFew : c' = [k |-> "e2epick", tree |-> cc.tree, inp |-> cc.inp, tape |-> tp, off |-> 0]
 ExpandE2E == c.k = "e2epick" /\ c' = E2ECase(c.tree, c.inp, c.tape, c.off)
@@ -195,7 +201,7 @@ LoadOpen == /\ c.k = "init" /\ Family = "poetic"
 Init == c = [k |-> "init"]
 LoadFaults == /\ c.k = "init" /\ Family = "fault"
               /\ c' \in FaultCases(0)
-Load == /\ c.k = "init" /\ Family \notin {"fault", "cli", "e2e"}
+Load == /\ c.k = "init" /\ Family \notin {"fault", "cli", "e2e", "lint"}
         /\ \E t \in Trees(0), off \in NamingOffsets : c' = [k |-> "tree", tree |-> t, off |-> off]
 Vary == /\ c.k = "tree"
         /\ LET nm == Naming(c.off)
@@ -205,7 +211,7 @@ Vary == /\ c.k = "tree"
                 c' = [k |-> "text", tree |-> c.tree, naming |-> nm, tape |-> tp, text |-> r.text, lines |-> r.lines]
 Strip == /\ c.k = "text" /\ c.tape = <<>>          \* the canonical rendering also without its trailing line ends
          /\ c' = [c EXCEPT !.k = "stripped", !.text = StripTrailingNl(c.text)]
-Next == Load \/ LoadFaults \/ LoadOpen \/ LoadCli \/ LoadE2E \/ ExpandE2E \/ Vary \/ Strip
+Next == Load \/ LoadFaults \/ LoadOpen \/ LoadCli \/ LoadE2E \/ LoadLint \/ ExpandE2E \/ Vary \/ Strip
 
 PoeticDigits(t) ==      \* the digits the first statement's poetic literal spells (C11), when it has one
   LET s == t[1][1]
